@@ -57,6 +57,13 @@ def events():
                 if col:
                     first_age.setdefault(r[0], set()).add(ages[col[0]])
     evs += ['7K', '2400', '5.3M', '60', '600', 'BT1K', 'SLJ', 'OT150', '1000W']
+    # the events of the junior tables too (Sportshall, QuadKids)
+    try:
+        evs += list(common.mod('athlib.sportshall_score').load_data())
+    except Exception:      # noqa
+        evs += ['SHJ', 'STJ', 'BAL', 'SPB', 'TART', 'OHT', 'CHT']
+    for tab in common.mod('athlib.qkids_score')._qkidsTables.values():
+        evs += list(tab)
     return list(dict.fromkeys(evs)), first_age
 
 
@@ -98,6 +105,8 @@ def group(e, first_age):
             add('athlib.wma_age_factor', (g, ya, e))
             add('athlib.wma_age_factor', (g, ya + 0.5, e.lower()), dict(year=2015))
         add('athlib.wma_age_grade', (g, 52, e, m))
+        add('athlib.wma_age_factor', (G, 52, e.lower()), dict(year=2023))
+        add('athlib.wma_age_factor', ({'m': 'male', 'f': 'Female'}[g], 52, e))
         add('athlib.wma_world_best', (g, e))
         add('athlib.wma_athlon_age_factor', (G, 52, e))
         add('athlib.wma_athlon_age_grade', (G, 52, e, m))
@@ -120,6 +129,9 @@ def group(e, first_age):
         add('athlib.athlon_score', (G, e, m, 'x'), first_only=True)
         add('athlib.athlon_performance_needed', (G, e, 'abc'), first_only=True)
         add('athlib.wma_age_factor', (g, 50, 'XC'), first_only=True)
+        add('athlib.wma_age_grade', (g, 25, '42', 5.5), first_only=True)            # accepted calls on distances outside the table (early exits)
+        add('athlib.wma_age_factor', (g, 40, '300000'), first_only=True)
+        add('athlib.wma_world_best', (g, '30'), first_only=True)
         add('athlib.wma_age_factor', (g, 50, 'SP4K'), first_only=True)
         add('athlib.wma_age_factor', (g, 'x', e), first_only=True)
         add('athlib.wma_age_grade', (g, 50, e, 'abc'), first_only=True)
@@ -250,9 +262,13 @@ def interpreter_modes(rep, pid):
     docstrings being present"""
     import subprocess, sys
     res = {}
-    for flag in ('', '-O', '-OO'):
-        cmd = [sys.executable] + ([flag] if flag else []) + ['-m', 'vlib.interprun', pid]
-        p = subprocess.run(cmd, cwd=common.VERIF, env=dict(os.environ, PYTHONHASHSEED='0'), capture_output=True, text=True)
+    for flag in ('', '-O', '-OO', 'debug-logging'):
+        cmd = [sys.executable] + ([flag] if flag.startswith('-') else []) + ['-m', 'vlib.interprun', pid]
+        env = dict(os.environ, PYTHONHASHSEED='0')
+        env.pop('VERIF_AMBIENT', None)
+        if flag == 'debug-logging':          # not an interpreter flag: the host application has switched DEBUG logging on before importing anything
+            env['VERIF_AMBIENT'] = flag
+        p = subprocess.run(cmd, cwd=common.VERIF, env=env, capture_output=True, text=True)
         line = [l for l in p.stdout.splitlines() if l.startswith('INTERP-RESULT ')]
         if p.returncode != 0 or not line:
             raise common.HarnessError('interpreter-mode pass failed to run (%s): %s' % (flag or 'default', (p.stderr or p.stdout)[-800:]))
@@ -261,7 +277,7 @@ def interpreter_modes(rep, pid):
         raise common.HarnessError('interpreter flags did not take effect')
     acc = Acc()
     base = res['']['answers']
-    for flag in ('-O', '-OO'):
+    for flag in ('-O', '-OO', 'debug-logging'):
         other = res[flag]['answers']
         if len(other) != len(base):
             raise common.HarnessError('interpreter-mode pass: call lists differ')
@@ -274,4 +290,4 @@ def interpreter_modes(rep, pid):
                 acc.nontrivial += 1
     if base:
         acc.samples.append(dict(interpreter_modes=['default', '-O', '-OO'], call=base[0][0], answer=base[0][1]))
-    merge(rep, [acc.pack()], part='interpreter modes: every cross-API call of this check made first under python, python -O and python -OO (%d calls)' % len(base))
+    merge(rep, [acc.pack()], part='interpreter modes: every cross-API call of this check made first under python, python -O, python -OO, and with DEBUG logging switched on by the host (%d calls)' % len(base))
